@@ -344,6 +344,11 @@ func (n *Node) WaitSynced(target uint32, o WaitOpts) error {
 			return errors.New("sync loop exited")
 		}
 		if time.Now().After(deadline) {
+			if where := syncLoopHang(); where != "" {
+				// not a slow machine: the runtime itself reports the sync goroutine parked on a channel / lock for
+				// minutes, inside the daemon's own code - applying the block does not terminate
+				return fmt.Errorf("%w: height %d is never applied: the sync goroutine hangs (%s); last daemon error: %s", ErrWedged, s+1, where, LastDaemonError())
+			}
 			return fmt.Errorf("%w at height %d (target %d)", ErrWatchdog, s, target)
 		}
 		select {
@@ -351,6 +356,53 @@ func (n *Node) WaitSynced(target uint32, o WaitOpts) error {
 		case <-time.After(50 * time.Millisecond):
 		}
 	}
+}
+
+// syncLoopHang looks at the goroutine dump: if the goroutine running DBlockSync has been parked for at least a
+// minute (the runtime appends "N minutes" to the state) on a channel operation, select, lock or wait group - not in
+// a system call, network or cgo call, not sleeping between attempts - it returns state and innermost daemon frame.
+func syncLoopHang() string {
+	buf := make([]byte, 8<<20)
+	buf = buf[:runtime.Stack(buf, true)]
+	for _, g := range strings.Split(string(buf), "\n\n") {
+		if !strings.Contains(g, "node.(*Pegnetd).DBlockSync") {
+			continue
+		}
+		lines := strings.Split(g, "\n")
+		head := lines[0] // goroutine 57 [chan receive, 2 minutes]:
+		i, j := strings.Index(head, "["), strings.LastIndex(head, "]")
+		if i < 0 || j < i {
+			return ""
+		}
+		state := head[i+1 : j]
+		if !strings.Contains(state, "minutes") {
+			return ""
+		}
+		blocked := false
+		for _, b := range []string{"chan receive", "chan send", "select", "semacquire", "sync.Mutex.Lock", "sync.WaitGroup.Wait", "sync.Cond.Wait", "sync.RWMutex"} {
+			if strings.HasPrefix(state, b) {
+				blocked = true
+			}
+		}
+		if !blocked {
+			return ""
+		}
+		frame := ""
+		for _, l := range lines[1:] {
+			if strings.Contains(l, "github.com/pegnet/pegnetd/") && !strings.HasPrefix(l, "\t") {
+				frame = strings.TrimSpace(l)
+				if k := strings.Index(frame, "("); k > 0 && strings.HasPrefix(frame, "github.com/pegnet/pegnetd/") {
+					frame = strings.TrimPrefix(frame, "github.com/pegnet/pegnetd/")
+				}
+				break
+			}
+		}
+		if len(frame) > 120 {
+			frame = frame[:120]
+		}
+		return state + " in " + frame
+	}
+	return ""
 }
 
 // Trace collects vdriver events tagged with the height being applied.
